@@ -541,23 +541,23 @@ pub fn run(ctx: &mut Ctx) {
         "canonical form: unknown scalar enumeration strings are omitted (the member takes its default), unknown list entries and parameters with unassigned algorithm numbers are dropped, unknown credential types read as 'unknown'".into(),
         "extra client-data keys never equal the four reserved names".into(),
     ];
-    let n = ctx.tier.pick(2_500u32, 100_000u32);
+    let n = ctx.tier.pick(2_500u32, 1_000_000u32);
     match search(ctx, 141, n, (opts(), proptest::collection::vec(pres(), 4)), check_opts) {
         Search::Pass => {}
         Search::Fail(c, e) => ctx.violation("options", json!(c), &e),
     }
-    let n = ctx.tier.pick(20_000u32, 1_000_000u32);
+    let n = ctx.tier.pick(20_000u32, 12_000_000u32);
     match search(ctx, 142, n, prop_oneof![4 => proptest::collection::vec(any::<u8>(), 0..80), 1 => bytes_s()], check_bytes) {
         Search::Pass => {}
         Search::Fail(c, e) => ctx.violation("bytes", json!(c), &e),
     }
-    let n = ctx.tier.pick(3_000u32, 100_000u32);
+    let n = ctx.tier.pick(3_000u32, 1_000_000u32);
     let cd = (json_extra(), proptest::collection::vec(("[a-zA-Z_][a-zA-Z0-9_]{0,9}", json_extra()), 0..4), any::<u8>(), proptest::option::of(any::<bool>()));
     match search(ctx, 143, n, cd, check_client_data) {
         Search::Pass => {}
         Search::Fail(c, e) => ctx.violation("client-data", json!(c), &e),
     }
-    let n = ctx.tier.pick(300u32, 10_000u32);
+    let n = ctx.tier.pick(300u32, 100_000u32);
     let em = (any::<u8>(), proptest::collection::vec(any::<u8>(), 0..64), json_extra(), any::<bool>(), any::<u8>());
     match search(ctx, 144, n, em, check_emitted) {
         Search::Pass => {}
